@@ -43,9 +43,9 @@ INTS = [0, 1, 2, 3, 5, 6, 7, 10, 100, 255, 256, 32767, -1, -2, -3, -6, -7, -10, 
 
 def gen_case(rng):
     fn = rng.choice(["div", "div", "mod", "mod", "not", "size", "ord", "chr", "concat", "substring", "tstrcmp", "tstrcmp", "malloc", "malloc2",
-                     "printint", "print", "getline", "getchar_ord"])
+                     "printint", "print", "getline", "getchar_ord", "heapcopy"])
     conv = rng.choice(["stack", "reg"])
-    if fn in ("concat", "substring") and conv == "reg":
+    if fn in ("concat", "substring", "heapcopy") and conv == "reg":
         conv = "stack"          # the register library has neither
     case = {"fn": fn, "conv": conv, "regs": [rng.choice([0, 1, 0x7FFF, 0x8000, 0xFFFF, rng.randint(0, 65535)]) for _ in range(10)]}
     if fn in ("div", "mod"):
@@ -61,6 +61,14 @@ def gen_case(rng):
         case["args"] = [rng.choice([0, 1, 65, 97, 126, 127, 10])]
     elif fn == "concat":
         case["strings"] = [gen_string(rng), gen_string(rng)]
+    elif fn == "heapcopy":
+        # strings that live in the heap (the result of an earlier concat), placed by a filler allocation around the middle of
+        # the address space (0x8000, where signed and unsigned address comparisons part), then copied again
+        strs = [gen_string(rng) or "ab", gen_string(rng) or "cd", gen_string(rng)]
+        L = len(strs[0]) + len(strs[1]) + 1
+        case["strings"] = strs
+        case["args"] = [rng.choice([0x8000 - (HEAP_LO + 1) - rng.randint(0, L + 1), 0x8000 - (HEAP_LO + 1) - rng.randint(0, L + 1),
+                                    0x8000 - (HEAP_LO + 1) + rng.randint(1, 5), rng.choice([0, 1, 100, 0x3000])])]
     elif fn == "tstrcmp":
         a = gen_string(rng)
         k = rng.random()
@@ -103,13 +111,20 @@ def program_text(case):
     # what the call takes: string addresses first, then integers
     operands = ["str{}".format(i) for i in range(len(case.get("strings", [])))] + [str(a) for a in case.get("args", [])]
     calls = [operands] if fn != "malloc2" else [[operands[0]], [operands[1]]]
+    fns = [real_fn] * len(calls)
+    if fn == "heapcopy":
+        calls, fns = [[operands[3]], ["str0", "str1"], ["@1", "str2"]], ["malloc", "concat", "concat"]
     for ci, ops in enumerate(calls):
+        real_fn = fns[ci]
         for i, v in enumerate(case["regs"]):
             lines.append("SET(R{}, {})".format(i + 1, v))
         if conv == "stack":
             lines += ["MOVE(R12, SP)", "INC(SP, 8)"]
             for j, o in enumerate(ops):
-                lines += ["SET(Rt, {})".format(o), "STORE(Rt, {}, R12)".format(3 + j)]
+                if o.startswith("@"):
+                    lines += ["SET(Rt, results)", "LOAD(Rt, {}, Rt)".format(int(o[1:])), "STORE(Rt, {}, R12)".format(3 + j)]
+                else:
+                    lines += ["SET(Rt, {})".format(o), "STORE(Rt, {}, R12)".format(3 + j)]
             lines += ["STORE(FP, 2, R12)", "CALL(R12, {})".format(real_fn), "LOAD(Rt, 3, R12)", "DEC(SP, 8)"]
         else:
             for j, o in enumerate(ops):
@@ -190,7 +205,7 @@ def run_case(case, d):
         prog = L.load_program(text, vm.settings)
         cap.take()
     results_addr = int(prog.symbol_table["results"])
-    res = [vm.load_memory(results_addr + i) for i in range(2)]
+    res = [vm.load_memory(results_addr + i) for i in range(4)]
     # SP and FP: the caller never moved FP, and re-balanced SP itself
     if vm.registers[14] != 0:
         return "{} ({}) returns with FP = {} (the caller had 0)".format(fn, conv, vm.registers[14])
@@ -225,6 +240,13 @@ def run_case(case, d):
             return "{}({}) returns the string {!r}, expected {!r}".format(fn, ", ".join(map(repr, strs + args)), got, want)
         if not (HEAP_LO < r and r + len(want) < HEAP_HI):
             return "{} returns a block outside the heap: {:#x}".format(fn, r)
+    if fn == "heapcopy":
+        h, r2 = res[1], res[2]
+        if read_string(vm, h) != strs[0] + strs[1]:
+            return "concat({!r}, {!r}) after malloc({}) returns the string {!r} at {:#x}".format(strs[0], strs[1], args[0], read_string(vm, h), h)
+        if read_string(vm, r2) != strs[0] + strs[1] + strs[2]:
+            return "concat of the heap string at {:#x} ({!r}) with {!r} returns {!r}, expected {!r}".format(
+                h, strs[0] + strs[1], strs[2], read_string(vm, r2), strs[0] + strs[1] + strs[2])
     if fn == "tstrcmp":
         want = (strs[0] > strs[1]) - (strs[0] < strs[1])
         got = s16(r)
